@@ -8,6 +8,7 @@ mod canon;
 mod gen;
 mod imp;
 mod oracle;
+mod refsmiles;
 mod rng;
 mod tables;
 
@@ -54,6 +55,31 @@ fn main() {
                 writeln!(out, "{}", orc.check(&line)).unwrap();
             }
             out.flush().unwrap();
+        }
+        Some("soak") => {
+            // read -> build -> walk -> write on a size family, in the main thread and in a 2 MiB thread
+            let fam = args.get(2).expect("family").clone();
+            let n: usize = args.get(3).and_then(|s| s.parse().ok()).unwrap_or(1000);
+            let s = gen::family(&fam, n);
+            let run = move |s: String| -> Result<usize, String> {
+                let mut b = purr::graph::Builder::new();
+                purr::read::read(&s, &mut b, None).map_err(|e| format!("read: {:?}", e))?;
+                let g = b.build().map_err(|e| format!("build: {:?}", e))?;
+                let atoms = g.len();
+                let mut w = purr::write::Writer::new();
+                purr::walk::walk(g, &mut w).map_err(|e| format!("walk: {:?}", e))?;
+                let out = w.write();
+                let mut w2 = purr::write::Writer::new();
+                purr::read::read(&out, &mut w2, None).map_err(|e| format!("re-read: {:?}", e))?;
+                Ok(atoms)
+            };
+            let s2 = s.clone();
+            match run(s) { Ok(a) => println!("main-thread ok atoms={}", a), Err(e) => { println!("main-thread error {}", e); std::process::exit(1) } }
+            let h = std::thread::Builder::new().stack_size(2 * 1024 * 1024).spawn(move || run(s2)).unwrap();
+            match h.join() { Ok(Ok(a)) => println!("2MiB-thread ok atoms={}", a), Ok(Err(e)) => { println!("2MiB-thread error {}", e); std::process::exit(1) } Err(_) => { println!("2MiB-thread panicked"); std::process::exit(1) } }
+        }
+        Some("classify") => {
+            for a in args.iter().skip(2) { println!("{:?} {:?}", a, refsmiles::classify(a)) }
         }
         _ => {
             eprintln!("usage: purrh selftest | gen <suite> <tier> <seed> | impl | oracle <property>");
